@@ -46,7 +46,7 @@ def closure_returns_taint(prog, path, depth=0):
 
 def run(prog, tier, extra=None):
     res = Result("C02", "other")
-    R1 = res.rule("C02.no-wrap", "amount-derived u64 values are not added/multiplied/summed with wrap-around or overflow panic before validation", floor=5)
+    R1 = res.rule("C02.no-wrap", "amount-derived u64 values are not added/multiplied/summed with wrap-around or overflow panic before validation", floor=3)
     R2 = res.rule("C02.inflation-gate", "Transaction::validate accepts a non-privileged transaction only through total_out <= total_in", floor=1)
     R3 = res.rule("C02.payout-exact", "Block::validate accepts a block only with exactly the fee transaction its consensus values call for", floor=3)
     cg = CallGraph(prog, [u for u in prog.units if u.crate == "saito_core"])
